@@ -54,6 +54,9 @@ type thread struct {
 	pos        int
 	callFaults int
 	finished   bool
+	// chainFailed: some link of the chained cleaner failed in the cleaning
+	// this thread is making (chain scenarios only; mirrored by callFaults&1).
+	chainFailed bool
 	// cleanedSince (relaxed monitor only): a cleaner call of another thread
 	// was entered since this thread's last operation as a user.
 	cleanedSince bool
@@ -418,6 +421,39 @@ func (w *world) clean(ctx context.Context) error {
 		return status.Error(codes.Internal, "cleaner failed")
 	}
 	return nil
+}
+
+// chainLink is the i-th of n fake cleaners that the scenario puts behind the
+// REAL cleaner.NewChainedCleaner: the first one is the entry of "the
+// cleaning" for the monitor, the last one its exit; every link is a
+// scheduling point that may fail. The cleaning failed iff SOME link failed
+// ("an action does not start if the cleaning before it failed"), whatever
+// the chain reports.
+func (w *world) chainLink(i, n int) func(ctx context.Context) error {
+	return func(ctx context.Context) error {
+		t := w.cur()
+		if i == 0 {
+			w.cleanerEnter(t)
+			w.mu.Lock()
+			t.chainFailed = false
+			w.mu.Unlock()
+		}
+		failed := w.fault(t, "cleaner", fmt.Sprintf("link%d", i), 1)
+		w.mu.Lock()
+		if failed {
+			t.chainFailed = true
+		}
+		anyFailed := t.chainFailed
+		w.mu.Unlock()
+		w.x.Logf("cleaner link %d/%d by %s failed=%v", i+1, n, t.name, failed)
+		if i == n-1 {
+			w.cleanerExit(t, anyFailed)
+		}
+		if failed {
+			return status.Error(codes.Internal, fmt.Sprintf("cleaner %d failed", i))
+		}
+		return nil
+	}
 }
 
 // ---------------------------------------------------------------------------
